@@ -60,7 +60,11 @@ class TapeImageContentInjector(TapeImageWorker):
                 elif fileExtension == "CSV":
                     # TODO check the actual format (separator 0xD ? )
                     fileType = 1  # TODO check that file created by basic file commands have type 1 / data
-            if os.path.abspath(src) == os.path.abspath(args.archive):
+            if os.path.abspath(src) == os.path.abspath(args.archive) or (
+                os.path.exists(src)
+                and os.path.exists(args.archive)
+                and os.path.samefile(src, args.archive)
+            ):
                 # writing the archive would destroy this source
                 raise ValueError(f"source.is.the.archive:{src}")
             if not (fileName + fileExtension).isascii():
